@@ -21,6 +21,7 @@ CONSTANTS
   Prefix <- MCPrefix
   MaxHavoc = 0
   KeepRec = TRUE
+  NestedTrigs = {}
 INVARIANT NoBad
 INVARIANT Structural
 ACTION_CONSTRAINT SimExport
